@@ -17,7 +17,7 @@ from lockstep import run_real, lockstep, free_run
 from real import snapshot
 
 _DRV = None
-MIXED_SAFE = {"C07"}
+MIXED_SAFE = {"C03", "C07", "C14"}
 
 
 def _drv():
@@ -50,10 +50,17 @@ def make_case(seed, i, profile):
         for q in spec.get("workplaces", []):
             for f in q["facilities"]:
                 f["skills"] = {k: (rng.choice([0.1, 0.3, 0.7, 1.0]) if v else v) for k, v in f["skills"].items()}
+        fam = rng.choice([[0.3335], [0.5002], [0.3335, 0.5, 0.7, 1.0]])   # sizes that miss a capacity by a hair
+        for c in spec.get("components", []):
+            c["size"] = rng.choice(fam)
+        for q in spec.get("workplaces", []):
+            q["cap"] = rng.choice([1.0, 1.0, 2.0])
         spec["decimal"] = True
         p = gen.gen_params(rng, spec)
         p.pop("warmup", None)
         p["initState"] = p["initLog"] = True
+        if rng.random() < 0.5:
+            p["errorTol"] = 1e-3       # a caller's (larger) numerical tolerance for "no work left"
         return spec, dict(p, maxTime=60)
     if profile == "nested":
         spec = gen.gen_nested(rng)
